@@ -39,6 +39,16 @@ def run(ctx):
     pairs = [G.schema_and_value(rng, layouts=False) for _ in range(n)]
     sp = codec.spec_batch(pairs)
     ser_lines = ["ser %s %s" % (s["schema"], s["present"]) for s in sp]
+    # the same values in other branch-determining serde shapes (fields permuted, nullable fields omitted, structs as maps,
+    # other integer widths, Some/None ...): the bytes may differ in block layout, the decoded value may not
+    from present import Presenter
+    alt = []
+    for s in sp:
+        pr = Presenter(rng, s["nodes"], break_prob=0.0, by_type_prob=0.15)
+        sv = pr.pres(0, C.parse_sx(s["evalue"])[0])
+        if pr.expect == "value":
+            alt.append((s, "ser %s %s%s" % (s["schema"], sv, " slow" if pr.needs_slow else "")))
+    ai, am = codec.both([l for _, l in alt])
     si, sm = codec.both(ser_lines)
     violations, diffs, samples, distinct = [], [], [], set()
     from collections import Counter
@@ -59,6 +69,17 @@ def run(ctx):
             for mode in modes:
                 de_lines.append("de %s %s %s %s" % (s["schema"], target, enc, mode))
                 de_meta.append((tg + "/" + mode.split(" ")[0].strip("("), "(ok %s 0)" % exp, enc, mode == "slice"))
+    for (s, line), ri, rm in zip(alt, ai, am):
+        distinct.add(line)
+        if not C.same_outcome(ri, rm) or (ri.startswith("(ok") and ri != rm):
+            diffs.append(codec.diff_entry(line, ri, rm))
+        p = C.parse_sx(ri)[0]
+        if p[0] != "ok":
+            violations.append({"impl_case": line, "what": "serializing a conforming value (alternative presentation) failed", "impl": ri[:300]})
+            continue
+        dist["ser-alt-ok"] += 1
+        de_lines.append("de %s any %s slice" % (s["schema"], p[1]))
+        de_meta.append(("alt/slice", "(ok %s 0)" % s["dany"], p[1], True))
     di, dm = codec.both(de_lines)
     for line, ri, rm, (kind, want, enc, is_slice) in zip(de_lines, di, dm, de_meta):
         distinct.add(line)
